@@ -2,7 +2,7 @@
 # tools/seed_matrix.sh [jobs]: run every seeded change against the check of the property it breaks (scratch worktrees,
 # never /repo) and write seeded/RESULTS.md.  A seed counts as detected when the check exits 1 with a VIOLATION line.
 jobs=${1:-3}
-cd /verif
+cd "$(dirname "$0")/.."
 tmp=$(mktemp -d /tmp/seedmx.XXXXXX)
 ls seeded | grep -v RESULTS | while read s; do
   p=$(python3 -c "import json;print(json.load(open('seeded/$s/meta.json'))['breaks_property'])"); echo "$s $p"
